@@ -185,6 +185,25 @@ func c16opExportJSONL(e *c16Env, r *rand.Rand, n int) {
 	}
 }
 
+type c16FailingDeleter struct{}
+
+var errC16Delete = errors.New("injected delete failure")
+
+func (c16FailingDeleter) Delete(context.Context, []byte) error { return errC16Delete }
+
+// c16opInvalidateFailing drives the put-back path of InvalidateByLabels (a deleter that fails) on cache name "failing".
+func c16opInvalidateFailing(e *c16Env, r *rand.Rand, n int) {
+	for i := 0; i < n/2+1; i++ {
+		e.be.Index().AddLabels("failing", c16Key(r), "F"+strconv.Itoa(r.Intn(3)))
+		_, _ = e.be.Index().InvalidateByLabels(bg, "F"+strconv.Itoa(r.Intn(3)), "F"+strconv.Itoa(r.Intn(3)))
+	}
+}
+func c16opAddLabelsFailingName(e *c16Env, r *rand.Rand, n int) {
+	for i := 0; i < n; i++ {
+		e.be.Index().AddLabels("failing", c16Key(r), "F"+strconv.Itoa(r.Intn(3)))
+	}
+}
+
 type c16OpDef struct {
 	name string
 	fn   func(e *c16Env, r *rand.Rand, n int)
@@ -195,6 +214,7 @@ var c16BackendOps = []c16OpDef{
 	{"ExpireAll", c16opExpireAll}, {"DeleteAll", c16opDeleteAll}, {"Len", c16opLen}, {"Walk", c16opWalk}, {"Dump", c16opDump},
 	{"Restore", c16opRestore}, {"AddInvalidationLabels", c16opAddInvalidationLabels}, {"AddLabels", c16opAddLabels},
 	{"AddCache", c16opAddCache}, {"InvalidateByLabels", c16opInvalidateByLabels}, {"ExportHTTP", c16opExportHTTP}, {"ExportJSONL", c16opExportJSONL},
+	{"InvalidateFailing", c16opInvalidateFailing}, {"AddLabelsFailingName", c16opAddLabelsFailingName},
 }
 
 var c16FailoverOps = []c16OpDef{
@@ -219,6 +239,7 @@ func c16NewEnv(kind string, strat int, failover string, rng *rand.Rand) *c16Env 
 		cfg.TimeToLive = cache.UnlimitedTTL
 	}
 	e := &c16Env{kind: kind, be: newBackend(kind, cfg), name: "race"}
+	e.be.Index().AddCache("failing", c16FailingDeleter{})
 	// a dump to restore from
 	src := newBackend(kind, cache.Config{})
 	for i, k := range c16Keys {
